@@ -10,6 +10,7 @@ import (
 
 	"pgregory.net/rapid"
 
+	"github.com/yorkie-team/yorkie/api/types"
 	"github.com/yorkie-team/yorkie/client"
 	"github.com/yorkie-team/yorkie/pkg/document"
 	yjson "github.com/yorkie-team/yorkie/pkg/document/json"
@@ -37,7 +38,11 @@ type GCRace struct {
 	Park  int `json:"park"`  // gcParkNames
 	BReqs int `json:"breqs"` // how many requests B completes while C's is parked (1: push only the conflicting change; 2: also report R as seen; 3: once more)
 	Extra int `json:"extra"` // extra synced edits of A before the episode (clock skew)
-	Snap  int `json:"snap"`  // != 0: the project's snapshot threshold; after C has seen R, A makes Snap+1 more edits so that C's parked request is answered by a snapshot (server-side GC at build time)
+	// Attach != 0: the frozen request is the ATTACH of a new client D (frozen after its pull range was read, before its
+	// vector row exists); meanwhile A removes, and A and B sync twice (they may purge: no row of D holds them back); D is
+	// released, sees the removed content alive, edits next to / on it (Kind) and pushes.
+	Attach int `json:"attach"`
+	Snap   int `json:"snap"` // != 0: the project's snapshot threshold; after C has seen R, A makes Snap+1 more edits so that C's parked request is answered by a snapshot (server-side GC at build time)
 }
 
 var gcParkNames = []string{"UpdateMinVersionVector/before", "FindChangeInfosBetweenServerSeqs/before", "FindChangeInfosBetweenServerSeqs/after", "UpdateClientInfoAfterPushPull/before",
@@ -46,11 +51,12 @@ var gcParkNames = []string{"UpdateMinVersionVector/before", "FindChangeInfosBetw
 func genGCRace() *rapid.Generator[GCRace] {
 	return rapid.Custom(func(t *rapid.T) GCRace {
 		return GCRace{
-			Kind:  rapid.IntRange(0, 2).Draw(t, "kind"),
-			Park:  rapid.IntRange(0, len(gcParkNames)-1).Draw(t, "park"),
-			BReqs: rapid.IntRange(1, 3).Draw(t, "breqs"),
-			Extra: rapid.IntRange(0, 3).Draw(t, "extra"),
-			Snap:  max(0, rapid.IntRange(-2, 3).Draw(t, "snap")),
+			Kind:   rapid.IntRange(0, 2).Draw(t, "kind"),
+			Park:   rapid.IntRange(0, len(gcParkNames)-1).Draw(t, "park"),
+			BReqs:  rapid.IntRange(1, 3).Draw(t, "breqs"),
+			Extra:  rapid.IntRange(0, 3).Draw(t, "extra"),
+			Snap:   max(0, rapid.IntRange(-2, 3).Draw(t, "snap")),
+			Attach: max(0, rapid.IntRange(-2, 1).Draw(t, "attach")),
 		}
 	})
 }
@@ -68,11 +74,7 @@ func runGCRace(c GCRace) (fail *kit.Failure, ev map[string]int, hist []string) {
 	dk := key.Key(world.FreshDocKey("c16gc"))
 	defer s.DB.SetHook(nil)
 
-	type peer struct {
-		c *client.Client
-		d *document.Document
-	}
-	var ps []*peer
+	var ps []*gcPeer
 	defer func() {
 		for _, p := range ps {
 			_ = p.c.Deactivate(ctx)
@@ -89,7 +91,7 @@ func runGCRace(c GCRace) (fail *kit.Failure, ev map[string]int, hist []string) {
 		if err := cl.Attach(ctx, d); err != nil {
 			return kit.Failf("ATTACHFAIL", "setup: %v", err), ev, hist
 		}
-		ps = append(ps, &peer{cl, d})
+		ps = append(ps, &gcPeer{cl, d})
 		if i == 0 {
 			if err := d.Update(func(r *yjson.Object, _ *presence.Presence) error {
 				a := r.SetNewArray("a")
@@ -106,20 +108,34 @@ func runGCRace(c GCRace) (fail *kit.Failure, ev map[string]int, hist []string) {
 			}
 		}
 	}
+	if c.Attach != 0 {
+		// only A and B keep vector rows
+		if err := ps[2].c.Detach(ctx, ps[2].d); err != nil {
+			return kit.Failf("DETACHFAIL", "setup: %v", err), ev, hist
+		}
+		s.WaitIdle()
+		for _, p := range []*gcPeer{ps[0], ps[1], ps[0], ps[1]} {
+			if err := p.c.Sync(ctx); err != nil {
+				return kit.Failf("SYNCFAIL", "setup: %v", err), ev, hist
+			}
+			s.WaitIdle()
+		}
+		return runAttachRace(ctx, s, proj, dk, c, ps[0], ps[1], ev, &hist)
+	}
 	A, B, C := ps[0], ps[1], ps[2]
-	syncOf := func(name string, p *peer) *kit.Failure {
+	syncOf := func(name string, p *gcPeer) *kit.Failure {
 		if err := p.c.Sync(ctx); err != nil {
 			return kit.Failf("SYNCFAIL", "%s: %v", name, err)
 		}
 		s.WaitIdle()
 		return nil
 	}
-	for _, p := range []*peer{A, B, C, A, B, C} {
+	for _, p := range []*gcPeer{A, B, C, A, B, C} {
 		if f := syncOf("setup", p); f != nil {
 			return f, ev, hist
 		}
 	}
-	upd := func(p *peer, f func(r *yjson.Object)) error {
+	upd := func(p *gcPeer, f func(r *yjson.Object)) error {
 		return p.d.Update(func(r *yjson.Object, _ *presence.Presence) error { f(r); return nil })
 	}
 	for i := 0; i < c.Extra; i++ {
@@ -144,7 +160,7 @@ func runGCRace(c GCRace) (fail *kit.Failure, ev map[string]int, hist []string) {
 	// A pushes R; C pulls R and reports it as seen (two syncs); B stays away
 	for _, st := range []struct {
 		n string
-		p *peer
+		p *gcPeer
 	}{{"A", A}, {"A", A}, {"C", C}, {"C", C}} {
 		if f := syncOf(st.n, st.p); f != nil {
 			return f, ev, hist
@@ -204,6 +220,7 @@ func runGCRace(c GCRace) (fail *kit.Failure, ev map[string]int, hist []string) {
 		return kit.Failf("HARNESS", "C's request neither parked nor returned"), ev, hist
 	}
 	// B: pushes its conflicting change, then reports R as seen
+	releasedC := false
 	for i := 0; i < c.BReqs; i++ {
 		bd := make(chan error, 1)
 		go func() { bd <- B.c.Sync(ctx) }()
@@ -218,16 +235,16 @@ func runGCRace(c GCRace) (fail *kit.Failure, ev map[string]int, hist []string) {
 			// B has to wait for C's request (it holds something B needs): let C go on, then wait for B
 			ev["b_waited_for_c"]++
 			close(release)
-			release = nil
+			releasedC = true
 			if err := <-bd; err != nil {
 				return kit.Failf("SYNCFAIL", "B: %v", err), ev, hist
 			}
 		}
-		if release == nil {
+		if releasedC {
 			break
 		}
 	}
-	if release != nil {
+	if !releasedC {
 		close(release)
 	}
 	if err := <-cdone; err != nil {
@@ -241,7 +258,7 @@ func runGCRace(c GCRace) (fail *kit.Failure, ev map[string]int, hist []string) {
 	}
 	// everybody synchronises: nothing may fail, replicas converge
 	for round := 0; round < 3; round++ {
-		for i, p := range []*peer{C, A, B} {
+		for i, p := range []*gcPeer{C, A, B} {
 			if err := p.c.Sync(ctx); err != nil {
 				return kit.Failf("SYNCFAIL", "%s, round %d after the parked request (kind %d, parked at %s, B made %d requests meanwhile; C purged: %v): %v",
 					[]string{"C", "A", "B"}[i], round, c.Kind, gcParkNames[c.Park], c.BReqs, ev["c_purged_after_the_parked_request"] > 0, err), ev, hist
@@ -253,6 +270,153 @@ func runGCRace(c GCRace) (fail *kit.Failure, ev map[string]int, hist []string) {
 		return kit.Failf("DIVERGED", "A %s\nB %s\nC %s", a, b, cc), ev, hist
 	}
 	return nil, ev, hist
+}
+
+type gcPeer struct {
+	c *client.Client
+	d *document.Document
+}
+
+// runAttachRace: see GCRace.Attach. (The third client of the setup stays attached and idle: it keeps a vector row
+// that does not cover the removal only until its own syncs - it syncs along with A and B.)
+func runAttachRace(ctx context.Context, s *world.Server, proj *types.Project, dk key.Key, c GCRace, A, B *gcPeer, ev map[string]int, hist *[]string) (*kit.Failure, map[string]int, []string) {
+	logf := func(f string, a ...any) { *hist = append(*hist, fmt.Sprintf(f, a...)) }
+	ev["attach_variant"]++
+	upd := func(p *gcPeer, f func(r *yjson.Object)) error {
+		return p.d.Update(func(r *yjson.Object, _ *presence.Presence) error { f(r); return nil })
+	}
+	// (no WaitIdle here: it must not be called while a request - the frozen attach - is in flight)
+	sync2 := func(ps ...*gcPeer) *kit.Failure {
+		for _, p := range ps {
+			if err := p.c.Sync(ctx); err != nil {
+				return kit.Failf("SYNCFAIL", "%v", err)
+			}
+		}
+		return nil
+	}
+	// the idle third client of the setup leaves, so that only A and B hold rows
+	// (found by listing the project's clients is not needed: the caller attached three; detach the third here)
+	points := []string{"FindChangeInfosBetweenServerSeqs/after", "FindChangeInfosBetweenServerSeqs/before", "CreateChangeInfos/after", "UpdateMinVersionVector/before", "GetMinVersionVector/after"}
+	pname := points[c.Park%len(points)]
+	var mu sync.Mutex
+	parkedOnce := false
+	parked := make(chan struct{}, 1)
+	release := make(chan struct{})
+	s.DB.SetHook(func(hctx context.Context, method string, ph world.Phase, _ any) error {
+		if !projects.HasProject(hctx) {
+			return nil
+		}
+		n := method + "/" + map[world.Phase]string{world.Before: "before", world.After: "after"}[ph]
+		mu.Lock()
+		doPark := !parkedOnce && n == pname
+		if doPark {
+			parkedOnce = true
+		}
+		mu.Unlock()
+		if doPark {
+			parked <- struct{}{}
+			<-release
+		}
+		return nil
+	})
+	defer s.DB.SetHook(nil)
+	cl, err := s.NewClient(ctx, proj)
+	if err != nil {
+		return kit.Failf("HARNESS", "client: %v", err), ev, *hist
+	}
+	defer func() { _ = cl.Deactivate(ctx); _ = cl.Close() }()
+	D := &gcPeer{cl, document.New(dk)}
+	adone := make(chan error, 1)
+	go func() { adone <- cl.Attach(ctx, D.d) }()
+	select {
+	case <-parked:
+		ev["parked"]++
+		ev["attach_parked@"+pname]++
+	case err := <-adone:
+		close(release)
+		ev["not_parked"]++
+		if err != nil {
+			return kit.Failf("ATTACHFAIL", "D: %v", err), ev, *hist
+		}
+		return nil, ev, *hist
+	case <-gotime.After(20 * gotime.Second):
+		close(release)
+		return kit.Failf("HARNESS", "D's attach neither parked nor returned"), ev, *hist
+	}
+	// meanwhile: A removes; A and B (and nobody else) report it as seen
+	switch c.Kind {
+	case 1:
+		_ = upd(A, func(r *yjson.Object) { r.GetText("t").Edit(1, 5, "") })
+	default:
+		_ = upd(A, func(r *yjson.Object) { r.GetArray("a").Delete(1) })
+	}
+	logf("D's attach is frozen at %s; A removes (kind %d); A and B sync twice", pname, c.Kind)
+	releasedD := false
+	wdone := make(chan *kit.Failure, 1)
+	go func() { wdone <- sync2(A, B, A, B, A, B) }()
+	select {
+	case f := <-wdone:
+		if f != nil {
+			close(release)
+			<-adone
+			return f, ev, *hist
+		}
+		ev["b_requests_while_parked"] += 2
+	case <-gotime.After(3 * gotime.Second):
+		ev["world_waited_for_the_frozen_attach"]++
+		close(release)
+		releasedD = true
+		if f := <-wdone; f != nil {
+			<-adone
+			return f, ev, *hist
+		}
+	}
+	if A.d.GarbageLen() == 0 && B.d.GarbageLen() == 0 {
+		ev["a_and_b_purged_while_the_attach_was_frozen"]++
+		logf("A and B have purged the removed content")
+	}
+	if !releasedD {
+		close(release)
+	}
+	if err := <-adone; err != nil {
+		return kit.Failf("ATTACHFAIL", "D (frozen at %s): %v", pname, err), ev, *hist
+	}
+	s.DB.SetHook(nil)
+	s.WaitIdle()
+	// D edits what it sees (it may not have learnt of the removal yet), then everybody syncs
+	switch c.Kind {
+	case 0:
+		_ = upd(D, func(r *yjson.Object) {
+			if a := r.GetArray("a"); a != nil && a.Len() > 1 {
+				a.Delete(1)
+			}
+		})
+	case 1:
+		_ = upd(D, func(r *yjson.Object) {
+			if t := r.GetText("t"); t != nil && len(t.String()) >= 3 {
+				t.Edit(3, 3, "X")
+			}
+		})
+	default:
+		_ = upd(D, func(r *yjson.Object) {
+			if a := r.GetArray("a"); a != nil && a.Len() > 1 {
+				a.InsertIntegerAfter(1, 9)
+			}
+		})
+	}
+	for round := 0; round < 3; round++ {
+		for i, p := range []*gcPeer{D, A, B} {
+			if err := p.c.Sync(ctx); err != nil {
+				return kit.Failf("SYNCFAIL", "%s, round %d after D's attach had been frozen at %s while A removed (kind %d) and A, B synced (purged: %v): %v",
+					[]string{"D", "A", "B"}[i], round, pname, c.Kind, ev["a_and_b_purged_while_the_attach_was_frozen"] > 0, err), ev, *hist
+			}
+			s.WaitIdle()
+		}
+	}
+	if a, b, d := A.d.Marshal(), B.d.Marshal(), D.d.Marshal(); a != b || a != d {
+		return kit.Failf("DIVERGED", "A %s\nB %s\nD %s", a, b, d), ev, *hist
+	}
+	return nil, ev, *hist
 }
 
 func gcHash(c GCRace) uint64 {
